@@ -73,6 +73,15 @@ type transUnit struct {
 	// callbacks" below): the function becomes polymorphic in {σ : Type}, takes the state `«st» : σ` right before that
 	// parameter, the parameter has type σ → args → Res (σ × results), and the final state is returned first.
 	Stateful map[string]string
+	// Nullable: "F" / "T.M" -> names of parameters of type pointer-to-mirrored-structure (ExternTypes) that may be nil:
+	// such a parameter is an `Option`; `p == nil` is `isNone`, any other use dereferences it (nil = panic).  The
+	// sub-message fields of the mirrored structures are always nullable.
+	Nullable map[string][]string
+	// IfaceSum: an interface of this package whose values are built from SEVERAL concrete types (`mapping.FromProto`
+	// returns a different mapping per interpolation) -> the concrete (pointer-to-)struct types.  The unit emits
+	// `inductive I | nil | T1 (v : T1) | …`; a result declared with the interface has this type, every returned value
+	// is wrapped in the constructor of its static type.
+	IfaceSum map[string][]string
 }
 
 // an interface of another package: a type variable with a class of method signatures (DDS/Model/GoIface.lean);
@@ -82,6 +91,9 @@ type ifaceSpec struct {
 	Class     string
 	Mutating  map[string]bool
 	MutParams map[string][]int // method -> indexes of the (non-receiver) parameters it writes through
+	// methods that live in another class than Class (a second class next to it, e.g. the protobuf methods
+	// "ToProto" -> "GoPb.StorePbI"; the unit lists that class among its TypeParams)
+	MethodClass map[string]string
 }
 
 type externFn struct {
@@ -89,6 +101,8 @@ type externFn struct {
 	Mutating  bool  // a method that changes its receiver
 	Res       bool  // fallible (takes fuel, returns Res)
 	MutParams []int // plain function: indexes of the parameters it writes through (returned first)
+	Ord       bool  // ranges over a map: takes the iteration-order oracle `ord` (after fuel)
+	OptParams []int // parameters that are nullable pointers to mirrored structures (`Option`)
 }
 
 var transUnits = []transUnit{
@@ -330,6 +344,7 @@ type funcInfo struct {
 	stIdx      int         // index (in sig.Params()) of the state-passing parameter
 	stVar      *types.Var  // the synthetic local `«st» : σ` of a stateful function
 	stCallback bool        // a function value in state-passing form: called as `f «st» args`, returns the new state first
+	optParams  map[int]bool // extern: indexes (in sig.Params()) of the nullable-pointer parameters (`Option`)
 	retState   []string    // what a `return` puts in front (state of a stateful function / of a state-passing literal)
 	retStateTy []string
 }
@@ -440,7 +455,7 @@ func (t *tr) leanType(ty types.Type) string {
 	case *types.Signature:
 		return t.sigType(u, false)
 	case *types.Map:
-		if !isInt(u.Key()) {
+		if !isInt(u.Key()) && basicKind(u.Key()) != types.Int32 {
 			t.fail(nil, "map with a non-int key")
 		}
 		return "(GoSem.GoMap (" + t.leanType(u.Elem()) + "))"
@@ -461,6 +476,9 @@ func (t *tr) leanType(ty types.Type) string {
 			if is, ok := t.unit.Ifaces[t.pkg.Name()+"."+u.Obj().Name()]; ok {
 				return is.TyVar
 			}
+			if _, ok := t.unit.IfaceSum[u.Obj().Name()]; ok {
+				return t.sumType(u.Obj().Name())
+			}
 		}
 		if _, ok := u.Underlying().(*types.Struct); ok && u.Obj().Pkg() == t.pkg {
 			if t.unit.Mode == "mops" {
@@ -474,6 +492,69 @@ func (t *tr) leanType(ty types.Type) string {
 		return t.leanType(u.Underlying())
 	}
 	panic(trErr{"unsupported type " + ty.String()})
+}
+
+func (t *tr) sumType(name string) string {
+	if t.unit.Mode == "mops" {
+		return "(" + t.unit.NS + "." + name + " F)"
+	}
+	return t.unit.NS + "." + name
+}
+
+// a value returned for result i of the current function, whose static type is `from` (nil: the literal `nil`): wrapped
+// in the constructor of the sum when the result is an interface of IfaceSum
+func (t *tr) sumWrap(n ast.Node, i int, v string, from types.Type) string {
+	nm, ok := t.cur.sig.Results().At(i).Type().(*types.Named)
+	if !ok || nm.Obj().Pkg() != t.pkg {
+		return v
+	}
+	alts, ok := t.unit.IfaceSum[nm.Obj().Name()]
+	if !ok {
+		return v
+	}
+	if from == nil {
+		return t.unit.NS + "." + nm.Obj().Name() + ".nil"
+	}
+	if types.Identical(from, nm) {
+		return v
+	}
+	if p, ok := from.(*types.Pointer); ok {
+		from = p.Elem()
+	}
+	if fn, ok := from.(*types.Named); ok && fn.Obj().Pkg() == t.pkg {
+		for _, a := range alts {
+			if a == fn.Obj().Name() {
+				return "(" + t.unit.NS + "." + nm.Obj().Name() + "." + a + " " + v + ")"
+			}
+		}
+	}
+	t.fail(n, "value of type %s returned for the interface %s is not one of its declared concrete types", from, nm.Obj().Name())
+	return ""
+}
+
+func (t *tr) emitSums() {
+	var names []string
+	for n := range t.unit.IfaceSum {
+		names = append(names, n)
+	}
+	sort.Strings(names)
+	for _, n := range names {
+		fmt.Fprintf(&t.out, "/-- a value of the Go interface `%s`: nil, or a pointer to a value of one of these concrete types -/\n", n)
+		if t.unit.Mode == "mops" {
+			fmt.Fprintf(&t.out, "inductive %s (F : Type) where\n", n)
+		} else {
+			fmt.Fprintf(&t.out, "inductive %s where\n", n)
+		}
+		t.out.WriteString("  | nil\n")
+		for _, a := range t.unit.IfaceSum[n] {
+			tn, ok := t.pkg.Scope().Lookup(a).(*types.TypeName)
+			if !ok {
+				panic(trErr{"IfaceSum: type " + a + " not found"})
+			}
+			fmt.Fprintf(&t.out, "  | %s (v : %s)\n", a, t.leanType(tn.Type()))
+		}
+		t.out.WriteString("\n")
+	}
 }
 
 // a function value: pointer parameters are passed by value and returned first; always fallible.  In state-passing
@@ -512,8 +593,11 @@ func (t *tr) varType(v *types.Var) string {
 
 // the namespace of the unit's structures (those of the base, for a unit that extends another)
 func (t *tr) structNS() string {
-	if t.unit.Base != nil {
-		return t.unit.Base.NS
+	if b := t.unit.Base; b != nil {
+		for b.Base != nil {
+			b = b.Base
+		}
+		return b.NS
 	}
 	return t.unit.NS
 }
@@ -831,6 +915,15 @@ func (t *tr) expr(e ast.Expr, c *ectx) string {
 		}
 		return t.constOfType(e, v, ty)
 	}
+	if t.isOptionExpr(e) {
+		// a nullable pointer used as a pointer: dereferenced by what follows (nil = panic)
+		if c.hoists == nil || c.inSC {
+			t.fail(e, "use of a nullable pointer needs a fallible, non-short-circuit context")
+		}
+		n := t.tmp()
+		*c.hoists = append(*c.hoists, hoist{name: n, kind: "opt", pat: n, expr: t.optionRaw(e, c)})
+		return n
+	}
 	switch x := e.(type) {
 	case *ast.ParenExpr:
 		return t.expr(x.X, c)
@@ -938,7 +1031,7 @@ func (t *tr) expr(e ast.Expr, c *ectx) string {
 	case *ast.IndexExpr:
 		if mt, ok := t.typeOf(x.X).Underlying().(*types.Map); ok {
 			// a map read never panics: the zero value for a missing key
-			return "(GoSem.mget " + t.expr(x.X, c) + " " + t.expr(x.Index, c) + " " + t.zero(e, mt.Elem()) + ")"
+			return "(GoSem.mget " + t.expr(x.X, c) + " " + t.mapKey(mt, x.Index, c) + " " + t.zero(e, mt.Elem()) + ")"
 		}
 		if c.hoists == nil || c.inSC {
 			t.fail(e, "index expression needs a fallible, non-short-circuit context")
@@ -971,6 +1064,15 @@ func (t *tr) expr(e ast.Expr, c *ectx) string {
 	return ""
 }
 
+// the key of a map access: a `map[int32]V` is keyed by the VALUE of the int32 (GoSem.GoMap has Int keys)
+func (t *tr) mapKey(mt *types.Map, e ast.Expr, c *ectx) string {
+	k := t.expr(e, c)
+	if isBV(mt.Key()) {
+		return "(BitVec.toInt " + k + ")"
+	}
+	return k
+}
+
 func (t *tr) fop(name string) string {
 	if t.unit.Mode == "mops" {
 		return "MOps." + name
@@ -993,6 +1095,12 @@ func (t *tr) binary(x *ast.BinaryExpr, c *ectx) string {
 		// `m == nil` for an interface value of a declared class
 		for _, pair := range [][2]ast.Expr{{x.X, x.Y}, {x.Y, x.X}} {
 			if id, ok := pair[1].(*ast.Ident); ok && id.Name == "nil" {
+				if t.isOptionExpr(pair[0]) {
+					if x.Op == token.NEQ {
+						return "(Option.isSome " + t.optionRaw(pair[0], c) + ")"
+					}
+					return "(Option.isNone " + t.optionRaw(pair[0], c) + ")"
+				}
 				if nm, ok := t.typeOf(pair[0]).(*types.Named); ok && nm.Obj().Pkg() != nil {
 					if is, ok := t.unit.Ifaces[nm.Obj().Pkg().Name()+"."+nm.Obj().Name()]; ok {
 						v := "(" + is.Class + ".isNil " + t.expr(pair[0], c) + ")"
@@ -1502,6 +1610,15 @@ func (t *tr) callee(x *ast.CallExpr, c *ectx) (*funcInfo, []string) {
 			args = append(args, st, fn)
 			continue
 		}
+		if fi.optParams[i] || (fi.decl != nil && i < fi.sig.Params().Len() && t.nullableParam(fi.key, fi.sig.Params().At(i))) {
+			// a nullable pointer parameter takes the `Option` itself
+			if t.isOptionExpr(a) {
+				args = append(args, t.optionRaw(a, c))
+			} else {
+				args = append(args, t.optionValue(a, t.expr(a, c)))
+			}
+			continue
+		}
 		v := t.expr(a, c)
 		if fi.extern && !fi.noFuel && t.rat() && isFloat(t.typeOf(a)) {
 			v = "(F64.fin " + v + ")" // an exact weight handed to code of another package that computes on float64
@@ -1769,7 +1886,11 @@ func (t *tr) registerExterns() {
 				}
 				key := nm.Obj().Pkg().Name() + "." + nm.Obj().Name()
 				if is, ok := t.unit.Ifaces[key]; ok {
-					fi := &funcInfo{key: key + "." + fo.Name(), lean: is.Class + "." + fo.Name(), sig: sig, recv: sig.Recv(),
+					cls := is.Class
+					if mc, ok := is.MethodClass[fo.Name()]; ok {
+						cls = mc
+					}
+					fi := &funcInfo{key: key + "." + fo.Name(), lean: cls + "." + fo.Name(), sig: sig, recv: sig.Recv(),
 						mutSet: map[*types.Var]bool{}, extern: true}
 					if is.Mutating[fo.Name()] {
 						fi.mutSet[sig.Recv()] = true
@@ -1790,7 +1911,13 @@ func (t *tr) registerExterns() {
 					t.byObj[obj] = fi
 				}
 			} else if ef, ok := t.unit.ExternFuncs[fo.Pkg().Name()+"."+fo.Name()]; ok {
-				fi := &funcInfo{key: fo.Pkg().Name() + "." + fo.Name(), lean: ef.Lean, sig: sig, mutSet: map[*types.Var]bool{}, extern: true, res: ef.Res}
+				fi := &funcInfo{key: fo.Pkg().Name() + "." + fo.Name(), lean: ef.Lean, sig: sig, mutSet: map[*types.Var]bool{}, extern: true, res: ef.Res, ord: ef.Ord}
+				for _, i := range ef.OptParams {
+					if fi.optParams == nil {
+						fi.optParams = map[int]bool{}
+					}
+					fi.optParams[i] = true
+				}
 				for _, i := range ef.MutParams {
 					fi.mutSet[sig.Params().At(i)] = true
 					fi.mutated = append(fi.mutated, i)
@@ -1852,7 +1979,10 @@ func (t *tr) zero(n ast.Node, ty types.Type) string {
 	if _, ok := ty.Underlying().(*types.Slice); ok {
 		return "[]"
 	}
-	if st, ok := ty.Underlying().(*types.Struct); ok {
+	if _, ok := ty.Underlying().(*types.Map); ok {
+		return "([] : " + t.leanType(ty) + ")" // a nil map reads and ranges like an empty one
+	}
+	if st, ok := ty.Underlying().(*types.Struct); ok && !t.isMirror(ty) {
 		var fs []string
 		for i := 0; i < st.NumFields(); i++ {
 			fs = append(fs, lname(st.Field(i).Name())+" := "+t.zero(n, st.Field(i).Type()))
@@ -1913,16 +2043,118 @@ func (t *tr) composite(x *ast.CompositeLit, c *ectx) string {
 			vals[st.Field(i).Name()] = t.expr(e, c)
 		}
 	}
+	ext := t.isExternStruct(ty)
 	var fs []string
 	for i := 0; i < st.NumFields(); i++ {
 		f := st.Field(i)
+		if ext && !f.Exported() {
+			// a hand-mirrored structure of another package (ExternTypes) has the exported (data) fields only
+			if _, set := vals[f.Name()]; set {
+				t.fail(x, "unexported field %s of %s in a composite literal", f.Name(), ty)
+			}
+			continue
+		}
 		v, ok := vals[f.Name()]
-		if !ok {
+		if ext && t.optionField(f) {
+			// a sub-message pointer: `none` is nil, a (non-nil) pointer value is `some`
+			if !ok {
+				v = "none"
+			} else {
+				for _, e := range x.Elts {
+					if kv, isKV := e.(*ast.KeyValueExpr); isKV && kv.Key.(*ast.Ident).Name == f.Name() {
+						v = t.optionValue(kv.Value, v)
+					}
+				}
+			}
+		} else if !ok {
 			v = t.zero(x, f.Type())
 		}
 		fs = append(fs, lname(f.Name())+" := "+v)
 	}
 	return "({ " + strings.Join(fs, ", ") + " } : " + t.leanType(ty) + ")"
+}
+
+// a struct type of another package that the unit mirrors by a hand-written Lean structure (ExternTypes)
+func (t *tr) isExternStruct(ty types.Type) bool {
+	if p, ok := ty.(*types.Pointer); ok {
+		ty = p.Elem()
+	}
+	nm, ok := ty.(*types.Named)
+	if !ok || nm.Obj().Pkg() == nil || nm.Obj().Pkg() == t.pkg {
+		return false
+	}
+	if _, ok := nm.Underlying().(*types.Struct); !ok {
+		return false
+	}
+	_, ok = t.unit.ExternTypes[nm.Obj().Pkg().Name()+"."+nm.Obj().Name()]
+	return ok
+}
+
+// a mirrored structure with internal (unexported) fields that the Lean structure leaves out: its zero value is `default`
+func (t *tr) isMirror(ty types.Type) bool {
+	if !t.isExternStruct(ty) {
+		return false
+	}
+	nm := ty.(*types.Named)
+	return nm.Obj().Pkg().Name() == "sketchpb"
+}
+
+// a field of a mirrored structure that points to another mirrored structure (a protobuf sub-message): an `Option`
+func (t *tr) optionField(f *types.Var) bool {
+	p, ok := f.Type().(*types.Pointer)
+	return ok && f.IsField() && f.Pkg() != t.pkg && t.isExternStruct(p.Elem())
+}
+
+// is the expression a NULLABLE pointer to a mirrored structure (an `Option` in Lean): a sub-message field, or a
+// parameter the unit lists in `Nullable`
+func (t *tr) isOptionExpr(e ast.Expr) bool {
+	switch x := unparen(e).(type) {
+	case *ast.SelectorExpr:
+		if sel, ok := t.info.Selections[x]; ok && sel.Kind() == types.FieldVal {
+			if f, ok := sel.Obj().(*types.Var); ok {
+				return t.optionField(f)
+			}
+		}
+	case *ast.Ident:
+		if v, ok := t.info.Uses[x].(*types.Var); ok && t.cur != nil {
+			return t.nullableParam(t.cur.key, v)
+		}
+	}
+	return false
+}
+
+func (t *tr) nullableParam(key string, v *types.Var) bool {
+	for _, n := range t.unit.Nullable[key] {
+		if n == v.Name() && !v.IsField() {
+			if p, ok := v.Type().(*types.Pointer); ok && t.isExternStruct(p.Elem()) {
+				return true
+			}
+		}
+	}
+	return false
+}
+
+// the `Option` value of a nullable pointer expression
+func (t *tr) optionRaw(e ast.Expr, c *ectx) string {
+	switch x := unparen(e).(type) {
+	case *ast.Ident:
+		return lname(x.Name)
+	case *ast.SelectorExpr:
+		return "(" + t.expr(x.X, c) + ")." + lname(x.Sel.Name)
+	}
+	t.fail(e, "unsupported nullable pointer expression")
+	return ""
+}
+
+// a pointer value stored where an `Option` is expected
+func (t *tr) optionValue(e ast.Expr, v string) string {
+	if id, ok := unparen(e).(*ast.Ident); ok && id.Name == "nil" {
+		return "none"
+	}
+	if t.isOptionExpr(e) {
+		return v
+	}
+	return "(some " + v + ")"
 }
 
 // ---------------------------------------------------------------- statements (continuation passing)
@@ -1987,8 +2219,8 @@ func (t *tr) assignTo(lhs ast.Expr, rhs string, c *ectx, sc *sctx, k string) str
 			return t.assignTo(l.X, "{ "+inner+" with "+lname(l.Sel.Name)+" := "+rhs+" }", c, sc, k)
 		}
 	case *ast.IndexExpr:
-		if _, isMap := t.typeOf(l.X).Underlying().(*types.Map); isMap && baseIdent(l.X) != nil {
-			return t.assignTo(l.X, "(GoSem.mset "+t.expr(l.X, c)+" "+t.expr(l.Index, c)+" "+rhs+")", c, sc, k)
+		if mt, isMap := t.typeOf(l.X).Underlying().(*types.Map); isMap && baseIdent(l.X) != nil {
+			return t.assignTo(l.X, "(GoSem.mset "+t.expr(l.X, c)+" "+t.mapKey(mt, l.Index, c)+" "+rhs+")", c, sc, k)
 		}
 		if id, ok := l.X.(*ast.Ident); ok && sc.monad != "pure" {
 			comb := "GoSem.optR"
@@ -2093,7 +2325,11 @@ func (t *tr) callStmt(x *ast.CallExpr, lhs []ast.Expr, define bool, sc *sctx, k 
 	}
 	if id, ok := x.Fun.(*ast.Ident); ok && id.Name == "delete" && len(lhs) == 0 {
 		if _, ok := t.info.Uses[id].(*types.Builtin); ok {
-			v := "(GoSem.mdelete " + t.expr(x.Args[0], c) + " " + t.expr(x.Args[1], c) + ")"
+			dk := t.expr(x.Args[1], c)
+			if mt, ok := t.typeOf(x.Args[0]).Underlying().(*types.Map); ok {
+				dk = t.mapKey(mt, x.Args[1], c)
+			}
+			v := "(GoSem.mdelete " + t.expr(x.Args[0], c) + " " + dk + ")"
 			return t.wrapHoists(*hs, t.assignTo(x.Args[0], v, c, sc, k), sc)
 		}
 	}
@@ -2772,7 +3008,11 @@ func (t *tr) stmt(s ast.Stmt, sc *sctx, kf func() string) string {
 						for i := 0; i < fi.sig.Results().Len(); i++ {
 							n := t.tmp()
 							lhs = append(lhs, ast.NewIdent(n))
-							names = append(names, n)
+							if fi.sig.Results().Len() == t.cur.sig.Results().Len() {
+								names = append(names, t.sumWrap(call, i, n, fi.sig.Results().At(i).Type()))
+							} else {
+								names = append(names, n)
+							}
 						}
 						return t.callStmt(call, lhs, true, sc, t.ret(tuple(append(vals, names...)), sc))
 					}
@@ -2786,6 +3026,10 @@ func (t *tr) stmt(s ast.Stmt, sc *sctx, kf func() string) string {
 			// `return nil, err` for a pointer-to-struct result: the struct's zero value
 			if id, ok := r.(*ast.Ident); ok && id.Name == "nil" {
 				rt := t.cur.sig.Results().At(i).Type()
+				if w := t.sumWrap(r, i, "", nil); w != "" {
+					vals = append(vals, w)
+					continue
+				}
 				if p, ok := rt.(*types.Pointer); ok {
 					vals = append(vals, t.zero(r, p.Elem()))
 					continue
@@ -2795,7 +3039,11 @@ func (t *tr) stmt(s ast.Stmt, sc *sctx, kf func() string) string {
 					continue
 				}
 			}
-			vals = append(vals, t.expr(r, c))
+			if i < t.cur.sig.Results().Len() && len(x.Results) == t.cur.sig.Results().Len() {
+				vals = append(vals, t.sumWrap(r, i, t.expr(r, c), t.typeOf(r)))
+			} else {
+				vals = append(vals, t.expr(r, c))
+			}
 		}
 		return t.wrapHoists(*hs, t.ret(tuple(vals), sc), sc)
 	case *ast.BranchStmt:
@@ -2983,6 +3231,9 @@ func (t *tr) paramType(fi *funcInfo, p *types.Var) string {
 	if t.byObj[p] != nil && t.byObj[p].stCallback {
 		return t.sigType(t.byObj[p].sig, true)
 	}
+	if t.nullableParam(fi.key, p) {
+		return "Option (" + t.leanType(p.Type()) + ")"
+	}
 	return t.leanType(p.Type())
 }
 
@@ -2991,6 +3242,9 @@ func (t *tr) paramType(fi *funcInfo, p *types.Var) string {
 func (t *tr) resultType(fi *funcInfo, i int) string {
 	rt := fi.sig.Results().At(i).Type()
 	if nm, ok := rt.(*types.Named); ok && nm.Obj().Pkg() == t.pkg {
+		if _, sum := t.unit.IfaceSum[nm.Obj().Name()]; sum {
+			return t.sumType(nm.Obj().Name())
+		}
 		if _, isI := nm.Underlying().(*types.Interface); isI && fi.decl != nil {
 			conc := ""
 			ast.Inspect(fi.decl.Body, func(m ast.Node) bool {
@@ -3128,6 +3382,10 @@ func (t *tr) rangeStmt(x *ast.RangeStmt, sc *sctx, k string) string {
 	}
 	inner := &sctx{monad: "loop", brk: ".done " + stTuple, cont: hole + tail}
 	body := t.stmts(x.Body.List, inner, hole+tail)
+	if isMap && !isForEach && keyName != "" && isBV(mt.Key()) {
+		// `map[int32]V`: the entry's key is the value of the int32; the loop variable is the int32 itself
+		body = fmt.Sprintf("let %s : BitVec %d := BitVec.ofInt %d %s\n", keyName, bvWidth(mt.Key()), bvWidth(mt.Key()), keyName) + body
+	}
 	if feConv && val != "_" {
 		body = "GoSem.optL (GoSem.ratOfF64 " + val + ") (fun " + val + " =>\n" + body + ")"
 	}
@@ -3515,7 +3773,7 @@ func (t *tr) analyseRes() {
 			if fi.res {
 				continue
 			}
-			r := false
+			r := len(t.unit.Nullable[fi.key]) > 0 // dereferences a nullable pointer: checked
 			ast.Inspect(fi.decl.Body, func(m ast.Node) bool {
 				switch e := m.(type) {
 				case *ast.IndexExpr:
@@ -3851,11 +4109,20 @@ func translateUnit(repo string, u transUnit) (text string, errMsg string) {
 	for _, key := range u.Funcs {
 		own[key] = true
 	}
+	// the chain of bases, the root first; a key listed by several units of the chain belongs to the nearest one
+	var chain []*transUnit
+	for b := u.Base; b != nil; b = b.Base {
+		chain = append([]*transUnit{b}, chain...)
+	}
+	priorOf := map[string]*transUnit{}
 	var allKeys []string
-	if u.Base != nil {
-		for _, key := range u.Base.Funcs {
+	for _, b := range chain {
+		for _, key := range b.Funcs {
 			if !own[key] {
-				allKeys = append(allKeys, key)
+				if priorOf[key] == nil {
+					allKeys = append(allKeys, key)
+				}
+				priorOf[key] = b
 			}
 		}
 	}
@@ -3872,11 +4139,16 @@ func translateUnit(repo string, u transUnit) (text string, errMsg string) {
 			lean = "go" + strings.ToUpper(key[:1]) + key[1:] // not to shadow Lean's own min / max
 		}
 		fi := &funcInfo{key: key, lean: lean, decl: fd, sig: sig, recv: sig.Recv(), mutSet: map[*types.Var]bool{}}
+		stateful := u.Stateful
 		if !own[key] {
 			fi.prior = true
-			fi.lean = u.Base.NS + "." + lean
+			fi.lean = priorOf[key].NS + "." + lean
+			stateful = nil
+			if priorOf[key].Base != nil {
+				stateful = priorOf[key].Stateful // a base that is itself an extension regenerated the function in this form
+			}
 		}
-		if pn, ok := u.Stateful[key]; ok && own[key] {
+		if pn, ok := stateful[key]; ok {
 			fi.stIdx = -1
 			for i := 0; i < sig.Params().Len(); i++ {
 				if sig.Params().At(i).Name() == pn {
@@ -3995,13 +4267,13 @@ func translateUnit(repo string, u transUnit) (text string, errMsg string) {
 		}
 	}
 	var allVars []string
-	if u.Base != nil {
-		for _, name := range u.Base.Vars {
+	for _, b := range chain {
+		for _, name := range b.Vars {
 			p, ok := pvs[name]
 			if !ok {
 				panic(trErr{"package variable " + name + " not found in " + u.Dir})
 			}
-			t.vars[p.obj] = u.Base.NS + "." + lname(name)
+			t.vars[p.obj] = b.NS + "." + lname(name)
 			allVars = append(allVars, name)
 		}
 	}
@@ -4062,6 +4334,7 @@ func translateUnit(repo string, u transUnit) (text string, errMsg string) {
 	if u.Base == nil {
 		t.emitStructs()
 	}
+	t.emitSums()
 	// emit variables and functions in dependency order: the listed order of Funcs, with each variable
 	// emitted right after the functions its initialiser needs (variables are listed in order)
 	emittedVar := map[string]bool{}
@@ -4163,6 +4436,9 @@ func genTrans(repo, outDir string) int {
 			continue
 		}
 		text, errMsg := translateUnit(repo, u)
+		if u.Desugar != nil && lastDesugared != "" && u.Base != nil && u.Base.Base != nil {
+			lastDesugared = "" // the desugared text kept next to the output is that of the unit and its direct extensions
+		}
 		if u.Desugar != nil && lastDesugared != "" {
 			dp := filepath.Join(outDir, u.Desugar.File[:len(u.Desugar.File)-len(".go")]+".desugared.go.txt")
 			if old, _ := os.ReadFile(dp); string(old) != lastDesugared {
@@ -4809,8 +5085,8 @@ func (t *tr) desugarFile(f *ast.File, filename string) *ast.File {
 	for _, k := range t.unit.Funcs {
 		want[k] = true
 	}
-	if t.unit.Base != nil {
-		for _, k := range t.unit.Base.Funcs {
+	for b := t.unit.Base; b != nil; b = b.Base {
+		for _, k := range b.Funcs {
 			want[k] = true
 		}
 	}
@@ -5389,4 +5665,109 @@ var mappingCtorUnit = extend(&transUnits[3], "CodeMappingCtor", "DDS.Gen.Mapping
 
 func init() {
 	transUnits = append(transUnits, denseIterUnit, sparseIterUnit, paginatedIterUnit, sketchIterUnit, denseDecodeUnit, sparseMergeUnit, sparseDecodeUnit, mappingCtorUnit)
+}
+
+// ---------------------------------------------------------------- the protobuf conversions
+//
+// The message structs of ddsketch/pb/sketchpb are mirrored by hand in DDS/Model/GoPb.lean (data fields only, the
+// float type a parameter); the units below declare them as ExternTypes.  A `map[int32]float64` is a GoSem.GoMap keyed
+// by the value of the int32; a sub-message pointer is an `Option`.
+
+func mergeTypes(ms ...map[string]string) map[string]string {
+	out := map[string]string{}
+	for _, m := range ms {
+		for k, v := range m {
+			out[k] = v
+		}
+	}
+	return out
+}
+
+func pbTypes(fl string) map[string]string {
+	return map[string]string{
+		"sketchpb.Store":                      "(GoPb.Store " + fl + ")",
+		"sketchpb.IndexMapping":               "(GoPb.IndexMapping " + fl + ")",
+		"sketchpb.DDSketch":                   "(GoPb.DDSketch " + fl + ")",
+		"sketchpb.IndexMapping_Interpolation": "GoPb.IndexMapping_Interpolation",
+	}
+}
+
+func withPb(u transUnit, fl string) transUnit {
+	u.ExternTypes = mergeTypes(u.ExternTypes, pbTypes(fl))
+	u.Imports = append(append([]string{}, u.Imports...), "DDS.Model.GoPb")
+	return u
+}
+
+// `ToProto` of the three kinds of store (exact weights).  The collapsing stores have no method of their own (the
+// embedded DenseStore's is promoted).  The paginated store fills the map inside the callback of its `ForEach`: the
+// state-passing `ForEach` of CodePaginatedIter, the state being the map.
+var denseProtoUnit = withPb(extend(&denseUnit, "CodeDenseProto", "DDS.Gen.DenseProto", "DenseStore.ToProto"), "Rat")
+
+var sparseProtoUnit = withPb(extend(&sparseUnit, "CodeSparseProto", "DDS.Gen.SparseProto", "SparseStore.ToProto"), "Rat")
+
+var paginatedProtoUnit = withPb(extend(&paginatedIterUnit, "CodePaginatedProto", "DDS.Gen.PaginatedProto",
+	"BufferedPaginatedStore.ToProto", "BufferedPaginatedStore.MergeWithProto"), "Rat")
+
+// `store.MergeWithProto` over any store (the bins given sparsely, in the order the oracle picks, then the bins given
+// contiguously)
+var storeProtoUnit = withPb(extend(&storeDecodeUnit, "CodeStoreProto", "DDS.Gen.StoreProto", "MergeWithProto"), "F64")
+
+func init() {
+	transUnits = append(transUnits, denseProtoUnit, sparseProtoUnit, paginatedProtoUnit, storeProtoUnit)
+}
+
+// `store.FromProto`: a new dense store, filled by the generic `MergeWithProto` of CodeStoreProto through whatever
+// StoreI instance the dense store is given (the message is the float64 one that function takes)
+var denseFromProtoUnit = func() transUnit {
+	u := extend(&denseUnit, "CodeDenseFromProto", "DDS.Gen.DenseFromProto", "FromProto")
+	u.TypeParams = "[StoreI DDS.Gen.Dense.DenseStore]"
+	u.ExternTypes = mergeTypes(denseUnit.ExternTypes, pbTypes("F64"))
+	u.Imports = append(append([]string{}, denseUnit.Imports...), "DDS.Model.GoPb", "DDS.Generated.CodeStoreProto")
+	u.ExternFuncs = mergeExterns(denseUnit.ExternFuncs, map[string]externFn{
+		"store.MergeWithProto": {Lean: "DDS.Gen.StoreProto.MergeWithProto", Res: true, Ord: true, MutParams: []int{0}}})
+	return u
+}()
+
+// the three mappings' `ToProto` (generic arithmetic: the fields are copied)
+var mappingProtoUnit = withPb(extend(&transUnits[3], "CodeMappingProto", "DDS.Gen.MappingProto",
+	"LogarithmicMapping.ToProto", "LinearlyInterpolatedMapping.ToProto", "CubicallyInterpolatedMapping.ToProto"), "F")
+
+func init() {
+	transUnits = append(transUnits, denseFromProtoUnit, mappingProtoUnit)
+}
+
+// `mapping.FromProto`: a nil message is an error; the result is the interface, a sum over the three kinds of mapping
+var mappingFromProtoUnit = func() transUnit {
+	u := withPb(extend(&transUnits[3], "CodeMappingFromProto", "DDS.Gen.MappingFromProto", "FromProto"), "F")
+	u.Nullable = map[string][]string{"FromProto": {"m"}}
+	u.IfaceSum = map[string][]string{"IndexMapping": {"LogarithmicMapping", "LinearlyInterpolatedMapping", "CubicallyInterpolatedMapping"}}
+	return u
+}()
+
+func init() {
+	transUnits = append(transUnits, mappingFromProtoUnit)
+}
+
+// the sketch level: `DDSketch.ToProto` and `FromProtoWithStoreProvider`, generic over the two interfaces.  The protobuf
+// methods of the interfaces live in the second classes `GoPb.MapPbI`, `GoPb.StorePbI` (extra binders of this unit: the
+// classes MapI / StoreI and their instances are untouched); `mapping.FromProto` is the class method
+// `MapPbI.FromProto` (as `MapI.Decode` stands for `mapping.Decode`), `store.MergeWithProto` is the regenerated generic
+// function of CodeStoreProto.  `ddsketch.FromProto` (the same with `store.DenseStoreConstructor`) is the instance at
+// the dense store and is not a generic function.
+var sketchProtoUnit = func() transUnit {
+	u := withPb(extend(&sketchUnit, "CodeSketchProto", "DDS.Gen.SketchProto", "DDSketch.ToProto", "FromProtoWithStoreProvider"), "F64")
+	u.TypeParams = sketchUnit.TypeParams + " [GoPb.MapPbI M] [GoPb.StorePbI S]"
+	u.Imports = append(u.Imports, "DDS.Generated.CodeStoreProto")
+	mi, si := sketchUnit.Ifaces["mapping.IndexMapping"], sketchUnit.Ifaces["store.Store"]
+	mi.MethodClass = map[string]string{"ToProto": "GoPb.MapPbI"}
+	si.MethodClass = map[string]string{"ToProto": "GoPb.StorePbI"}
+	u.Ifaces = map[string]ifaceSpec{"mapping.IndexMapping": mi, "store.Store": si}
+	u.ExternFuncs = mergeExterns(sketchUnit.ExternFuncs, map[string]externFn{
+		"store.MergeWithProto": {Lean: "DDS.Gen.StoreProto.MergeWithProto", Res: true, Ord: true, MutParams: []int{0}},
+		"mapping.FromProto":    {Lean: "GoPb.MapPbI.FromProto (M := M)", OptParams: []int{0}}})
+	return u
+}()
+
+func init() {
+	transUnits = append(transUnits, sketchProtoUnit)
 }
